@@ -183,3 +183,49 @@ func verifH_C07_multi() {
 	}
 	verifReach("end")
 }
+
+func init() {
+	verifRegister("C07_big", verifH_C07_big)
+}
+
+// H07-big: AVG over two rows whose values range over all of BIGINT (the other
+// aggregate harnesses keep |v| below 1000). The exact mean of two 64-bit values
+// is computed without overflow from their halves: a = 2*ah + al, b = 2*bh + bl,
+// mean = ah + bh + (al+bl)/2. Only values beyond +-2^52 are considered here
+// (at least one of the two).
+func verifH_C07_big() {
+	a, b := verifI64("a"), verifI64("b")
+	const lim = int64(1) << 52
+	small := verifAnd(verifAnd(a > -lim, a < lim), verifAnd(b > -lim, b < lim))
+	// values within +-2^52 are the other harnesses' range (|v| < 1000 is decided
+	// there; the floating-point query over the whole +-2^52 range does not finish
+	// within the solver's time limit and is not asked here)
+	verifAssume(!small)
+	verifTag("magnitude", "beyond-2^52")
+	tbl := &verifStubTable{cols: []string{"v"}, rows: [][]interface{}{{a}, {b}}}
+	rm := &verifRM{tables: map[string]*verifStubTable{"t": tbl}}
+	stmt, perr := parseSQL("SELECT avg(v), count(v) FROM t")
+	verifAssert(perr == nil, "parses")
+	if perr != nil {
+		return
+	}
+	rows, _, err := EvaluateSelect(stmt.(sql.Select), rm)
+	verifAssert(err == nil, "select-ok")
+	if err != nil {
+		return
+	}
+	verifAssert(len(rows) == 1 && len(rows[0].Vals) == 2, "one-row")
+	if len(rows) != 1 || len(rows[0].Vals) != 2 {
+		return
+	}
+	A, isInt := rows[0].Vals[0].(int64)
+	n, isInt2 := rows[0].Vals[1].(int64)
+	verifAssert(isInt && isInt2 && n == 2, "count")
+	ah, bh := a>>1, b>>1
+	al, bl := a&1, b&1
+	m := ah + bh
+	half := al + bl // 0: mean = m; 1: mean = m + 1/2; 2: mean = m + 1
+	ok := verifOr(verifAnd(half == 0, A == m), verifOr(verifAnd(half == 1, verifOr(A == m, A == m+1)), verifAnd(half == 2, A == m+1)))
+	verifAssert(ok, "avg-is-the-rounded-mean")
+	verifReach("end")
+}
